@@ -20,6 +20,8 @@ TEMPLATES = {
     'fillB': {}, 'fillP': {}, 'fillS': {},
     'dilA': {}, 'dilAn': {},
     'mkC': {'creates': 'C'}, 'solW': {'creates': 'S'}, 'solA': {'creates': 'S'}, 'fromA': {'creates': 'F'},
+    # diluted with a solvent the stock does not contain (kept out of the program enumeration: used by explicit cells only)
+    'fromAd': {'creates': 'F', 'extra': True},
     'solC': {'needs': 'C', 'creates': 'S'}, 'A>C': {'needs': 'C'}, 'C>B': {'needs': 'C'},
 }
 WELLS = [(0, 0), (0, 1), (1, 0), (1, 1)]
@@ -27,7 +29,7 @@ WELLS = [(0, 0), (0, 1), (1, 0), (1, 1)]
 
 def programs(max_len, include_known=True):
     out = []
-    names = list(TEMPLATES)
+    names = [t for t in TEMPLATES if not TEMPLATES[t].get('extra')]
     for n in range(1, max_len + 1):
         for prog in itertools.product(names, repeat=n):
             created = set()
@@ -78,7 +80,7 @@ class Cast:
             return {'c': h.real(f"c{i}", Fr(1, 1000), 5)}
         if t in ('solW', 'solA', 'solC'):
             return {'q': h.real(f"q{i}", 1, 3000)}
-        if t == 'fromA':
+        if t in ('fromA', 'fromAd'):
             return {'q': h.real(f"q{i}", 1, 3000), 'c': h.real(f"c{i}", Fr(1, 1000), 5)}
         if t == 'mkC':
             return {'q': h.real(f"q{i}", 1, 3000)}
@@ -89,7 +91,7 @@ class Cast:
 
 USES = {
     'A>Psub': 'AP', 'Psub>B': 'PB', 'A>B': 'AB', 'A>Pr': 'AP', 'Pc>B': 'PB', 'P11>Pr2': 'P', 'Pr1>Pr2': 'P', 'rmB': 'B', 'rmPr': 'P', 'rmP': 'P',
-    'fillB': 'B', 'fillP': 'P', 'fillS': 'P', 'dilA': 'A', 'dilAn': 'A', 'mkC': '', 'solW': '', 'solA': 'A', 'fromA': 'A',
+    'fillB': 'B', 'fillP': 'P', 'fillS': 'P', 'dilA': 'A', 'dilAn': 'A', 'mkC': '', 'solW': '', 'solA': 'A', 'fromA': 'A', 'fromAd': 'A',
     'solC': '', 'A>C': 'A', 'C>B': 'B',
 }
 
@@ -177,6 +179,8 @@ def add_step(cast: Cast, rec, t, v, placeholders):
                                                 total_quantity=f"{v['q']} uL")
     elif t == 'fromA':
         placeholders['F'] = rec.create_solution_from(A, salt, f"{v['c']} M", water, f"{v['q']} uL", name='F')
+    elif t == 'fromAd':
+        placeholders['F'] = rec.create_solution_from(A, salt, f"{v['c']} M", cast.dmso, f"{v['q']} uL", name='F')
     elif t == 'A>C':
         rec.transfer(A, placeholders['C'], f"{v['q']} uL")
     elif t == 'C>B':
@@ -256,6 +260,9 @@ def eager_step(cast: Cast, cur: dict, t, v):
         return ['C', 'S'], discarded
     if t == 'fromA':
         cur['A'], cur['F'] = C.create_solution_from(cur['A'], salt, f"{v['c']} M", water, f"{v['q']} uL", name='F')
+        return ['A', 'F'], discarded
+    if t == 'fromAd':
+        cur['A'], cur['F'] = C.create_solution_from(cur['A'], salt, f"{v['c']} M", cast.dmso, f"{v['q']} uL", name='F')
         return ['A', 'F'], discarded
     if t == 'A>C':
         cur['A'], cur['C'] = C.transfer(cur['A'], cur['C'], f"{v['q']} uL")
